@@ -395,7 +395,18 @@ pub fn install_quiet_panic_hook() {
         } else {
             "<non-string panic payload>".to_string()
         };
-        let loc = info.location().map(|l| format!("{}:{}", l.file(), l.line())).unwrap_or_default();
+        // the library is compiled from a copy under target/simsrc/src: report the path in /repo
+        let loc = info
+            .location()
+            .map(|l| {
+                let f = l.file();
+                let f = match f.find("simsrc/src/") {
+                    Some(i) => format!("/repo/src/{}", &f[i + "simsrc/src/".len()..]),
+                    None => f.to_string(),
+                };
+                format!("{}:{}", f, l.line())
+            })
+            .unwrap_or_default();
         if verbose {
             eprintln!("[panic] {msg} @ {loc}");
         }
